@@ -1445,6 +1445,9 @@ func (t *Topic) subscriptionReply(asChan bool, msg *ClientComMessage) error {
 		if acs, err := types.ParseAcs([]byte(modeChanged.Mode)); err == nil {
 			hasJoined = acs.IsJoiner()
 		}
+	} else if pud, ok := t.perUser[asUid]; ok && !(pud.modeWant & pud.modeGiven).IsJoiner() {
+		// The mode has not changed and it does not let the user in (the user had banned himself earlier).
+		hasJoined = false
 	}
 
 	if hasJoined {
@@ -1879,17 +1882,17 @@ func (t *Topic) thisUserSub(sess *Session, pkt *ClientComMessage, asUid types.Ui
 		}
 	}
 
+	if !userData.modeGiven.IsJoiner() {
+		// User was banned
+		sess.queueOut(ErrPermissionDeniedReply(pkt, now))
+		return nil, errors.New("topic access denied; user is banned")
+	}
+
 	if !userData.modeWant.IsJoiner() {
 		// The user is self-banning from the topic. Re-subscription will unban.
 		t.evictUser(asUid, false, "")
 		// The callee will send NoErrOK
 		return modeChanged, nil
-	}
-
-	if !userData.modeGiven.IsJoiner() {
-		// User was banned
-		sess.queueOut(ErrPermissionDeniedReply(pkt, now))
-		return nil, errors.New("topic access denied; user is banned")
 	}
 
 	return modeChanged, nil
